@@ -567,6 +567,15 @@ def val_lt(E, a, b):
             for x, y in reversed(list(zip(a.fields, b.fields))):
                 res = b_or(val_lt(E, x, y), b_and(val_eq(E, x, y), res))
             return res
+        if a.ty == b.ty and a.ty in ('Option', 'Result', 'Ordering') and isinstance(a.variant, int) \
+                and isinstance(b.variant, int):
+            # derive(PartialOrd) of the std enums: variant order first (None < Some, Ok < Err), then the payload
+            if a.variant != b.variant:
+                return a.variant < b.variant
+            res = False
+            for x, y in reversed(list(zip(a.fields, b.fields))):
+                res = b_or(val_lt(E, x, y), b_and(val_eq(E, x, y), res))
+            return res
     raise ModelGap(f'val_lt {a!r} {b!r}')
 
 
